@@ -166,7 +166,7 @@ class World:
         self.trainer.compile(self.loss, LSGD(self.model.parameters(), lr=0.05, momentum=0.5), LEvaluator(mode=mode) if mode else None)
         self.train_loader = loader("train", case["n_train"], case["rem"] if bs > 1 else 0)
         self.val_loader = None if case["val"] is None else loader("val", case["val"], 0, (case["val"] - 1) if case["val_raises"] else None)
-        self.test_loader = loader("test", max(case["val"] or 0, 0) if case["val"] is not None else 2, 0)
+        self.test_loader = loader("test", 2 if case["val"] is None else case["val"], 0)
 
     def state(self):
         """every parameter and every running statistic, byte for byte"""
@@ -194,7 +194,7 @@ class World:
     def cb(self, which):
         def f(model, loader):      # a callback that leaves the model in the wrong mode for what follows
             self.log.append(("cb", which))
-            super(type(model), model).eval() if which == "train" else super(type(model), model).train()
+            nn.Module.eval(model) if which == "train" else nn.Module.train(model)
         return f
 
 
@@ -224,7 +224,8 @@ def run_fit(case, seed=0):
     TM.gradient__ = True
     end_state = w.state()
     log = w.log
-    ck(len(w.train_loader) == T, "harness.loader_length", "len(train_loader) = %d, harness built %d batches" % (len(w.train_loader), T))
+    if len(w.train_loader) != T:
+        raise RuntimeError("harness: len(train_loader) = %d, built %d batches" % (len(w.train_loader), T))
     ck(g_after == g_before, "Trainer.fit.restores_gradient_mode", "global gradient mode %s before fit, %s after%s" % (g_before, g_after, " (validation loop raised)" if exc else ""))
     if exc is not None:
         expected = c["val_raises"] and isinstance(exc, Boom)
@@ -300,6 +301,7 @@ def run_test(case, ambient, seed=0):
         n += 1
         if not cond:
             fails.append((obligation, what, extra))
+    w.trainer.evaluator = None          # test() does not use it; case["ev"] only selects scalar / vector outputs here
     try:
         with w.observed():
             w.trainer.fit(w.train_loader, 1)
